@@ -385,7 +385,8 @@ fn optimize_stmt(
       let mut filtered_loop_variables = Vec::new();
       for v in loop_variables.iter() {
         if v.initial_value == v.loop_value {
-          value_cx.checked_bind(v.name, v.initial_value);
+          let initial_value = optimize_expr(value_cx, &v.initial_value);
+          value_cx.checked_bind(v.name, initial_value);
         } else {
           filtered_loop_variables.push(v);
         }
